@@ -125,13 +125,15 @@ PROPS = {
         "level": "proof",
         "lean_modules": ["SqlizeModel.Props.C05"],
         "theorems": ["Sqlize.C05.split_invariant", "Sqlize.C05.calls_invariant", "Sqlize.C05.rejected_unchanged", "Sqlize.C05.parse_before_edit",
-                     "Sqlize.C05.load_keeps_inv", "Sqlize.C05.rename_onto_existing_breaks", "Sqlize.readScript_inv", "Sqlize.fromString_inv"],
+                     "Sqlize.C05.load_keeps_inv", "Sqlize.C05.rename_onto_existing_breaks", "Sqlize.readScript_inv", "Sqlize.fromString_inv", "Sqlize.C05.names_and_positions", "Sqlize.ReaderMysql.step_rel", "Sqlize.ReaderMysql.fidelity"],
         "suites": [{"name": "script"}],
         "corr_points": ["load", "state", "dump"],
         "rule": SCRIPT_RULE,
         "trusted_base": COMMON_TB + PAIR_TB,
         "assumptions": ["scripts are well-formed on the reference engine and start from the empty schema"],
-        "explanation": "Proved for all inputs: every load (3 reader models, any split into calls) keeps slices and position maps consistent "
+        "explanation": "Proved for all inputs: the MySQL reader model simulates the reference engine on tables, column names and column positions "
+                       "for scripts of any length (Sqlize.C05.names_and_positions: one commuting square per statement kind; vocabulary without RENAME COLUMN / RENAME INDEX); "
+                       "every load (3 reader models, any split into calls) keeps slices and position maps consistent "
                        "(Sqlize.C05.load_keeps_inv, side condition: renames onto fresh names); split invariance of the reader model (state incl. cursor and pending position) and the rejection "
                        "clause (by definition + regenerated fact that every Parser* function parses before it edits). The fidelity clause "
                        "(Sqlize.C05.Statement_partial) is decided by correspondence on white-box state + dump, and by the executable predicate "
